@@ -140,19 +140,52 @@ def _pick(k, n, new, old_fn):
 def s_map(fn, seq):
     """[fn(x) for x in seq] for sequences of symbolic length."""
     if isinstance(seq, SList):
-        return SList(seq.length, lambda k: fn(seq.elem(k)), name="comprehension")
+        return SList(seq.length, _generic_then_quiet(lambda k: fn(seq.elem(k)), seq.length), name="comprehension")
     return [fn(x) for x in seq]
 
 
-def s_dictcomp(fn, seq):
+def s_genmap(fn, seq):
+    """(fn(x) for x in seq): a symbolic-length sequence gives the same SList as a list comprehension; over a concrete
+    iterable (a list, another generator) it stays a lazy Python generator, so `next(gen, default)` keeps its meaning."""
+    if isinstance(seq, SList):
+        return s_map(fn, seq)
+    return (fn(x) for x in seq)
+
+
+def _generic_then_quiet(elem, length):
+    """A comprehension over a sequence of symbolic length evaluates its element expression for every index IN RANGE.
+    The element function is therefore run once at a generic index k0 under the assumption 0 <= k0 < length (its call
+    preconditions are obligations under that assumption); later lazy evaluations at whatever index a comparison asks
+    for emit no call preconditions (such an index need not be in range: a false alarm of the C14/C16 checks on a driver
+    rewritten as `[run_step(i) for i in range(n)]`)."""
+    run = engine()
+    k0 = sym.fresh_int("comp_ix")
+    saved = list(getattr(run, "ctx_assuming", []))
+    run.ctx_assuming = saved + [(k0 >= 0) & (k0 < length)]
+    try:
+        elem(k0)
+    finally:
+        run.ctx_assuming = saved
+
+    def lazy(k):
+        run.quiet = getattr(run, "quiet", 0) + 1
+        try:
+            return elem(k)
+        finally:
+            run.quiet -= 1
+    return lazy
+
+
+def s_dictcomp(fn, seq, single=False):
     """{k: v for (..) in seq}; fn returns (key, value).  Distinct keys are the caller's
     precondition (recorded by the contract)."""
     if isinstance(seq, SList):
         def kv(k, which):
             e = seq.elem(k)
-            return fn(*e)[which]
-        return SDict(seq.length, lambda k: kv(k, 0), lambda k: kv(k, 1), name="dict-comprehension")
-    return dict(fn(*e) for e in seq)
+            return (fn(e) if single else fn(*e))[which]
+        both = _generic_then_quiet(lambda k: (kv(k, 0), kv(k, 1)), seq.length)
+        return SDict(seq.length, lambda k: both(k)[0], lambda k: both(k)[1], name="dict-comprehension")
+    return dict((fn(e) if single else fn(*e)) for e in seq)
 
 
 class BList:
